@@ -12,7 +12,7 @@ Definition abs_var (f : flavour) (s : state) (x : var) : sval :=
   match x with
   | VDead => SDead
   | VLive _ HNone => snull f
-  | VLive _ (HBlock b) => SVal (if is_ptr f then b else 0%nat) (len (getb s b))
+  | VLive _ (HBlock b) => SVal (if is_ptr f then b else 0%nat) (val (getb s b))
   end.
 Definition abs (f : flavour) (s : state) : list sval := map (abs_var f s) (vars s).
 Definition abs_state (f : flavour) (s : state) : sstate := {| svars := abs f s; screated := length (heap s) |}.
@@ -37,7 +37,7 @@ Qed.
 
 (* ---- the abstraction and the primitives ------------------------------------------------------------------ *)
 Definition same_len (s s' : state) : Prop :=
-  (length (heap s) <= length (heap s'))%nat /\ forall c, (c < length (heap s))%nat -> len (getb s' c) = len (getb s c).
+  (length (heap s) <= length (heap s'))%nat /\ forall c, (c < length (heap s))%nat -> val (getb s' c) = val (getb s c).
 
 Lemma same_len_refl s : same_len s s.
 Proof. split; [lia|auto]. Qed.
@@ -49,7 +49,7 @@ Lemma sl_raise s x : same_len s (raise s x).
 Proof. apply same_len_heap. unfold raise. destruct (flt s); reflexivity. Qed.
 Lemma sl_touch s b : same_len s (touch s b).
 Proof. unfold touch. destruct (freed (getb s b)); [apply sl_raise|apply same_len_refl]. Qed.
-Lemma sl_setb s b k : len k = len (getb s b) -> same_len s (setb s b k).
+Lemma sl_setb s b k : val k = val (getb s b) -> same_len s (setb s b k).
 Proof.
   intros E. split; [rewrite len_setb; lia|]. intros c L. destruct (Nat.eq_dec b c) as [->|N].
   - rewrite getb_setb_same by exact L. exact E.
@@ -134,7 +134,7 @@ Proof.
 Qed.
 
 Lemma write_inplace_eq s b n : live s b -> count_refs b (vars s) = 1%nat ->
-  write_inplace s b n = setb s b (with_len (getb s b) n).
+  write_inplace s b n = setb s b (with_val (getb s b) n).
 Proof.
   intros [L F] C. unfold write_inplace. rewrite (touch_live _ _ F). rewrite C. reflexivity.
 Qed.
@@ -154,7 +154,7 @@ Proof.
   - rewrite upd_length. unfold abs. rewrite !map_length. reflexivity.
   - intros i Li. unfold abs in Li. rewrite map_length in Li. cbn [vars setb] in Li.
     unfold abs at 1. cbn [vars setb].
-    change SDead with (abs_var f (setb s b (with_len (getb s b) n)) VDead) at 1. rewrite map_nth.
+    change SDead with (abs_var f (setb s b (with_val (getb s b) n)) VDead) at 1. rewrite map_nth.
     fold (getv s i).
     destruct (Nat.eq_dec i v) as [->|N].
     + rewrite nth_upd_same by (rewrite abs_length; exact Lv). rewrite G. subst o. simpl.
@@ -177,9 +177,9 @@ Lemma spec_out_of_range f s o :
 Proof.
   intros B. assert (UO : forall v x, (length (vars s) <= v)%nat -> upd v x (abs f s) = abs f s)
     by (intros v x L; apply upd_overflow; rewrite abs_length; exact L).
-  destruct o as [v n|v|d sv|d sv|d sv|v|a b|v|v|v]; cbn [op_vars forallb] in B;
+  destruct o as [v n|v|d sv|d sv|d sv|v|a b|d sv|v c|v m|v|v]; cbn [op_vars forallb] in B;
   rewrite ?andb_true_r in B; try (apply andb_false_iff in B); unfold spec_step, sset.
-  - apply Nat.ltb_ge in B. rewrite (sget_overflow f s v B). cbn. apply UO. exact B.
+  - cbn [svars abs_state]. rewrite abs_length, B, andb_false_r. reflexivity.
   - apply Nat.ltb_ge in B. rewrite (sget_overflow f s v B). cbn. apply UO. exact B.
   - destruct B as [B|B]; apply Nat.ltb_ge in B.
     + rewrite (sget_overflow f s d B). cbn [is_dead andb].
@@ -196,6 +196,10 @@ Proof.
   - destruct f; try reflexivity. destruct B as [B|B]; apply Nat.ltb_ge in B.
     + rewrite (sget_overflow FPtr s a B). reflexivity.
     + rewrite (sget_overflow FPtr s b B). cbn [is_dead negb]. rewrite andb_false_r. reflexivity.
+  - destruct f; try reflexivity. destruct B as [B|B]; apply Nat.ltb_ge in B.
+    + rewrite (sget_overflow FPtr s d B). reflexivity.
+    + rewrite (sget_overflow FPtr s sv B). cbn [is_dead negb]. rewrite andb_false_r. reflexivity.
+  - apply Nat.ltb_ge in B. rewrite (sget_overflow f s v B). destruct f; reflexivity.
   - apply Nat.ltb_ge in B. rewrite (sget_overflow f s v B). destruct f; reflexivity.
   - apply Nat.ltb_ge in B. rewrite (sget_overflow f s v B). destruct f; reflexivity.
   - apply Nat.ltb_ge in B. cbn. apply UO. exact B.
@@ -213,7 +217,7 @@ Proof.
   destruct (freed (nth b h dead_block)); [destruct fl|]; reflexivity.
 Qed.
 
-Lemma getb_alloc_new s r l c : getb (fst (alloc s r l c)) (length (heap s)) = {| rc := r; freed := false; len := l; cap := c; dtors := 0 |}.
+Lemma getb_alloc_new s r l c : getb (fst (alloc s r l c)) (length (heap s)) = {| rc := r; freed := false; val := l; cap := c; dtors := 0 |}.
 Proof. unfold getb, alloc; cbn [fst heap]. rewrite app_nth2 by lia. rewrite Nat.sub_diag. reflexivity. Qed.
 
 Lemma abs_alloc_store f s v r l c : Inv s ->
@@ -271,13 +275,13 @@ Lemma abs_str_detach f s v r o g : Inv s -> is_ptr f = false -> (v < length (var
 Proof.
   intros I NP Lv G. pose proof I as [W C]. pose proof (C _ _ _ G) as RO. subst o.
   unfold str_detach. destruct r as [|b].
-  - change (abs f (setv (fst (alloc s 1 g (Z.lor g 3))) v (both (HBlock (length (heap s))))) = upd v (grow f (snull f) g) (abs f s)).
-    rewrite (abs_alloc_store f s v 1 g _ I). rewrite NP. destruct f; try discriminate; reflexivity.
+  - change (abs f (setv (fst (alloc s 1 (push 0 g) (Z.lor (slen (push 0 g)) 3))) v (both (HBlock (length (heap s))))) = upd v (grow f (snull f) g) (abs f s)).
+    rewrite (abs_alloc_store f s v 1 _ _ I). rewrite NP. destruct f; try discriminate; reflexivity.
   - destruct (Inv_live s v b _ I G) as [[L F] R]. rewrite (touch_live _ _ F).
-    destruct ((rc (getb s b) =? 1) && (len (getb s b) + g <=? cap (getb s b))) eqn:E.
+    destruct ((rc (getb s b) =? 1) && (slen (push (val (getb s b)) g) <=? cap (getb s b))) eqn:E.
     + apply andb_true_iff in E. destruct E as [E _]. apply Z.eqb_eq in E.
       rewrite (abs_write_inplace f s v b _ _ I Lv G E). reflexivity.
-    + change (abs f (setv (release FStr (touch (fst (alloc s 1 (len (getb s b) + g) (Z.lor (len (getb s b) + g) 3))) b) (HBlock b)) v
+    + change (abs f (setv (release FStr (touch (fst (alloc s 1 (push (val (getb s b)) g) (Z.lor (slen (push (val (getb s b)) g)) 3))) b) (HBlock b)) v
                           (both (HBlock (length (heap s))))) = upd v (grow f (abs_var f s (VLive (HBlock b) (HBlock b))) g) (abs f s)).
       rewrite (abs_clone f FStr s v b _ _ _ I G). cbn [abs_var grow]. rewrite NP. reflexivity.
 Qed.
@@ -287,15 +291,51 @@ Lemma abs_var_detach f s v r o g : Inv s -> is_ptr f = false -> f <> FStr -> (v 
 Proof.
   intros I NP NS Lv G. pose proof I as [W C]. pose proof (C _ _ _ G) as RO. subst o.
   unfold var_detach. destruct r as [|b].
-  - change (abs f (setv (fst (alloc s 1 g 0)) v (both (HBlock (length (heap s))))) = upd v (grow f (snull f) g) (abs f s)).
-    rewrite (abs_alloc_store f s v 1 g _ I). rewrite NP. destruct f; try discriminate; try contradiction; reflexivity.
+  - change (abs f (setv (fst (alloc s 1 (push 0 g) 0)) v (both (HBlock (length (heap s))))) = upd v (grow f (snull f) g) (abs f s)).
+    rewrite (abs_alloc_store f s v 1 _ _ I). rewrite NP. destruct f; try discriminate; try contradiction; reflexivity.
   - destruct (Inv_live s v b _ I G) as [[L F] R]. rewrite (touch_live _ _ F).
     destruct (rc (getb s b) >? 1) eqn:E.
-    + change (abs f (setv (release FVar (touch (fst (alloc s 1 (len (getb s b) + g) 0)) b) (HBlock b)) v
+    + change (abs f (setv (release FVar (touch (fst (alloc s 1 (push (val (getb s b)) g) 0)) b) (HBlock b)) v
                           (both (HBlock (length (heap s))))) = upd v (grow f (abs_var f s (VLive (HBlock b) (HBlock b))) g) (abs f s)).
       rewrite (abs_clone f FVar s v b _ _ _ I G). cbn [abs_var grow]. rewrite NP. reflexivity.
     + rewrite Z.gtb_ltb in E. apply Z.ltb_ge in E.
       rewrite (abs_write_inplace f s v b _ _ I Lv G ltac:(lia)). reflexivity.
+Qed.
+
+Lemma abs_replace f f0 s v b o l c : Inv s -> getv s v = VLive (HBlock b) o ->
+  abs f (setv (release f0 (fst (alloc s 1 l c)) (HBlock b)) v (both (HBlock (length (heap s))))) =
+  upd v (SVal (if is_ptr f then length (heap s) else 0%nat) l) (abs f s).
+Proof.
+  intros I G. pose proof (abs_clone f f0 s v b o l c I G) as X.
+  destruct (Inv_live s v b o I G) as [LV _]. pose proof (live_alloc s 1 l c b LV) as [_ F1].
+  rewrite (touch_live _ _ F1) in X. exact X.
+Qed.
+
+Lemma abs_release_alloc f f0 s v r l c : Inv s ->
+  abs f (setv (fst (alloc (release f0 s r) 1 l c)) v (both (HBlock (length (heap (release f0 s r)))))) =
+  upd v (SVal (if is_ptr f then length (heap (release f0 s r)) else 0%nat) l) (abs f s).
+Proof.
+  intros I. set (s1 := release f0 s r).
+  rewrite (abs_store f s _ v _ I).
+  - cbn [abs_var both]. rewrite getb_alloc_new. reflexivity.
+  - unfold s1. change (vars (fst (alloc (release f0 s r) 1 l c))) with (vars (release f0 s r)). apply vars_release.
+  - eapply same_len_trans; [apply (sl_release f0 s r)|apply sl_alloc].
+Qed.
+
+Lemma abs_assign_val f s v r o c : Inv s -> is_ptr f = false -> (v < length (vars s))%nat -> getv s v = VLive r o ->
+  abs f (assign_val f s v r c) = upd v (SVal 0 c) (abs f s).
+Proof.
+  intros I NP Lv G. pose proof I as [W C]. pose proof (C _ _ _ G) as RO. subst o.
+  unfold assign_val. destruct r as [|b].
+  - etransitivity; [exact (abs_alloc_store f s v 1 c 0 I)|]. rewrite NP. reflexivity.
+  - destruct (Inv_live s v b _ I G) as [[L F] R]. rewrite (touch_live _ _ F).
+    destruct (rc (getb s b) >? 1) eqn:E.
+    + destruct f; try discriminate.
+      * exact (abs_replace FStr FVar s v b _ c 0 I G).
+      * exact (abs_replace FVar FVar s v b _ c 0 I G).
+      * exact (abs_release_alloc FXml FVar s v (HBlock b) c 0 I).
+    + rewrite Z.gtb_ltb in E. apply Z.ltb_ge in E.
+      rewrite (abs_write_inplace f s v b _ _ I Lv G ltac:(lia)). rewrite NP. reflexivity.
 Qed.
 
 Theorem step_refines f s o : Inv s -> abs f (step f s o) = svars (spec_step f (abs_state f s) o).
@@ -303,9 +343,10 @@ Proof.
   intros I. pose proof I as [W C]. unfold step, step_gen. rewrite (wf_flt _ _ W).
   destruct (forallb (fun v => Nat.ltb v (length (vars s))) (op_vars o)) eqn:B; cbn [negb];
     [|symmetry; apply spec_out_of_range; exact B].
-  destruct o as [v n|v|d sv|d sv|d sv|v|a b|v|v|v]; cbn [op_vars forallb] in B;
+  destruct o as [v n|v|d sv|d sv|d sv|v|a b|d sv|v c|v m|v|v]; cbn [op_vars forallb] in B;
   rewrite ?andb_true_r, ?andb_true_iff, ?Nat.ltb_lt in B; unfold spec_step, sset; rewrite ?sget_abs, ?is_dead_abs; cbn [svars screated abs_state].
   - (* OCreate *)
+    rewrite abs_length. apply Nat.ltb_lt in B. rewrite B, andb_true_r. apply Nat.ltb_lt in B.
     destruct (getv s v) eqn:G; [|reflexivity].
     destruct f; cbn [svars].
     + exact (abs_alloc_store FStr s v 1 n _ I).
@@ -394,11 +435,22 @@ Proof.
       rewrite (upd_same_abs FPtr s a _ ltac:(rewrite Gb; reflexivity)).
       rewrite (upd_same_abs FPtr s a _ ltac:(rewrite Gb; reflexivity)). reflexivity.
     + unfold ptr_swap. rewrite !abs_setv. reflexivity.
+  - (* OAssignRaw *)
+    destruct B as [Bd Bs].
+    destruct f; try reflexivity.
+    destruct (getv s d) as [|rd od] eqn:Gd; [reflexivity|]. cbn [negb andb].
+    destruct (getv s sv) as [|r o] eqn:Gs; [reflexivity|]. cbn [negb andb svars].
+    pose proof (C _ _ _ Gs) as RO. subst o.
+    apply (abs_share_store FPtr FPtr s d rd sv r r _ I Gs). intros sk. reflexivity.
+  - (* OAssignVal *)
+    destruct f; try reflexivity; destruct (getv s v) as [|r o] eqn:G; try reflexivity; cbn [svars].
+    + apply (abs_assign_val FVar s v r o c I eq_refl B G).
+    + apply (abs_assign_val FXml s v r o c I eq_refl B G).
   - (* OWrite *)
     destruct f; try reflexivity; destruct (getv s v) as [|r o] eqn:G; try reflexivity; cbn [svars].
-    + apply (abs_str_detach FStr s v r o 1 I eq_refl B G).
-    + apply (abs_var_detach FVar s v r o 1 I eq_refl ltac:(discriminate) B G).
-    + apply (abs_var_detach FXml s v r o 1 I eq_refl ltac:(discriminate) B G).
+    + apply (abs_str_detach FStr s v r o m I eq_refl B G).
+    + apply (abs_var_detach FVar s v r o m I eq_refl ltac:(discriminate) B G).
+    + apply (abs_var_detach FXml s v r o m I eq_refl ltac:(discriminate) B G).
   - (* ODetach *)
     destruct f; try reflexivity; destruct (getv s v) as [|r o] eqn:G; try reflexivity; cbn [svars].
     + apply (abs_str_detach FStr s v r o 0 I eq_refl B G).
@@ -446,4 +498,77 @@ Proof.
   repeat match goal with
          | |- context [match ?c with _ => _ end] => destruct c
          end; cbn [svars abs_state]; rewrite ?U by tauto; reflexivity.
+Qed.
+
+(* ---- RefCount::Ptr over whole histories: the identity of an object is the index of its block, and
+        blocks are allocated by create only, so the Spec's object counter is the size of the heap ---------- *)
+Lemma hl_raise s x : length (heap (raise s x)) = length (heap s).
+Proof. unfold raise. destruct (flt s); reflexivity. Qed.
+Lemma hl_touch s b : length (heap (touch s b)) = length (heap s).
+Proof. unfold touch. destruct (freed (getb s b)); [apply hl_raise|reflexivity]. Qed.
+Lemma hl_inc s b : length (heap (inc s b)) = length (heap s).
+Proof. unfold inc. rewrite len_setb. apply hl_touch. Qed.
+Lemma hl_free s b : length (heap (free_blk s b)) = length (heap s).
+Proof. unfold free_blk. destruct (freed (getb s b)); [apply hl_raise|apply len_setb]. Qed.
+Lemma hl_dec s b : length (heap (fst (dec s b))) = length (heap s).
+Proof.
+  unfold dec. cbn [fst]. rewrite len_setb.
+  destruct (rc (getb (touch s b) b) - 1 <? 0); rewrite ?hl_raise; apply hl_touch.
+Qed.
+Lemma hl_release f s h : length (heap (release f s h)) = length (heap s).
+Proof.
+  destruct h as [|b]; [reflexivity|]. unfold release.
+  destruct (is_ptr f || negb (rc (getb (touch s b) b) =? 0)); [|apply hl_touch].
+  pose proof (hl_dec (touch s b) b) as D. destruct (dec (touch s b) b) as [s2 r]. cbn [fst] in D.
+  destruct (r =? 0); [rewrite hl_free|]; rewrite D; apply hl_touch.
+Qed.
+
+Lemma hl_step_ptr s o : (forall v n, o <> OCreate v n) -> length (heap (step FPtr s o)) = length (heap s).
+Proof.
+  intros N. unfold step, step_gen. destruct (flt s); [reflexivity|].
+  destruct (negb (forallb (fun v => Nat.ltb v (length (vars s))) (op_vars o))); [reflexivity|].
+  destruct o; try (exfalso; eapply N; reflexivity); cbv zeta; unfold ptr_swap;
+  repeat match goal with |- context [match ?x with _ => _ end] => destruct x end;
+  cbn [heap setv]; rewrite ?hl_release, ?hl_inc; cbn [heap setv]; rewrite ?hl_release, ?hl_inc, ?hl_touch; cbn [heap setv]; reflexivity.
+Qed.
+
+Lemma created_step_other f ss o : (forall v n, o <> OCreate v n) -> screated (spec_step f ss o) = screated ss.
+Proof.
+  intros N. destruct o; try (exfalso; eapply N; reflexivity); unfold spec_step, sset;
+  repeat match goal with |- context [match ?x with _ => _ end] => destruct x end; reflexivity.
+Qed.
+
+Lemma ptr_step_created s o : Inv s ->
+  screated (spec_step FPtr (abs_state FPtr s) o) = length (heap (step FPtr s o)).
+Proof.
+  intros I. pose proof I as [W C].
+  destruct o as [v n| | | | | | | | | | | ];
+    try (rewrite hl_step_ptr by discriminate; rewrite created_step_other by discriminate; reflexivity).
+  unfold step, step_gen. rewrite (wf_flt _ _ W). cbn [op_vars forallb]. rewrite andb_true_r.
+  unfold spec_step. rewrite sget_abs, is_dead_abs. cbn [svars abs_state]. rewrite abs_length.
+  destruct (Nat.ltb v (length (vars s))) eqn:B; cbn [negb].
+  - destruct (getv s v) eqn:G; cbn [andb screated]; [|reflexivity].
+    unfold alloc. cbv beta iota zeta. rewrite hl_inc. cbn [heap setv]. rewrite app_length. simpl. lia.
+  - rewrite andb_false_r. reflexivity.
+Qed.
+
+(* all four flavours, whole histories: the values (for Ptr: the identities) the Model's variables hold
+   are those of the Spec *)
+Theorem run_refines_all f ops :
+  abs f (run f ops) = svars (spec_run f ops) /\
+  (is_ptr f = true -> screated (spec_run f ops) = length (heap (run f ops))).
+Proof.
+  unfold run, spec_run.
+  assert (H : forall s ss, Inv s -> abs f s = svars ss -> (is_ptr f = true -> screated ss = length (heap s)) ->
+                           abs f (fold_left (step f) ops s) = svars (fold_left (spec_step f) ops ss) /\
+                           (is_ptr f = true -> screated (fold_left (spec_step f) ops ss) = length (heap (fold_left (step f) ops s)))).
+  { induction ops as [|o t IH]; intros s ss I E P; [split; assumption|]. simpl.
+    destruct (is_ptr f) eqn:NP.
+    - assert (ES : ss = abs_state f s).
+      { destruct ss as [l c]. cbn [svars screated] in *. unfold abs_state. rewrite E, (P eq_refl). reflexivity. }
+      subst ss. apply IH; [apply step_Inv; exact I|apply step_refines; exact I|].
+      intros _. destruct f; try discriminate. apply ptr_step_created. exact I.
+    - apply IH; [apply step_Inv; exact I| |intros X; discriminate].
+      rewrite (step_refines f s o I). apply spec_step_svars_ext; [exact NP|]. exact E. }
+  apply H; [exact Inv_init|reflexivity|reflexivity].
 Qed.
